@@ -35,7 +35,7 @@ func init() {
 		Title: "CORS preflight is answered by the filter alone and grants only what is allowed",
 		Decided: "C09.a on the preflight branch (OPTIONS with Access-Control-Request-Method, allowed origin) no ProcessFilter is reachable, on every other allowed-origin branch exactly one is, after the actual-request headers; " +
 			"C09.b in the preflight function every grant is dominated by the true edge of the method check on this request's Access-Control-Request-Method and lies behind the exhaustion of the loop that checks every requested header, a failed check reaches no grant, and the method list tested is the list granted; " +
-			"C09.c requested header names are compared whole and case-insensitively (or against the '*' entry) after trimming; C09.d the computed allowed methods are stored into a function-local copy of the filter configuration, never into shared state; C09.e the methods are computed for this request on the configured (or default) container.",
+			"C09.c requested header names are compared whole and case-insensitively (or against the '*' entry) after trimming; C09.d the computed allowed methods are stored into a function-local copy of the filter configuration, never into shared state; C09.e the methods are computed for this request on the configured (or default) container. C09.g/h the computation behind an unconfigured AllowedMethods accepts routes as the router does, reads the live tables and keeps no memo (= C17.d/e); C09.i it matches the same text the routers use (= C02.l).",
 		NotDecided: "which methods are routable at the URL (see C17); the exact header values beyond their provenance.",
 		Rules: []Rule{
 			{ID: "C09.a", Template: "T-ONCE", Required: true, Run: ruleC09a,
